@@ -4,6 +4,7 @@
 # (2) applies it to /repo, runs the given checks, and undoes it straight afterwards.
 set -u
 export GOFLAGS=-mod=mod GOPROXY=off GOSUMDB=off GOTOOLCHAIN=local
+export VERIF_EVIDENCE_DIR=/verif/build/seed_evidence
 D=$1; tier=$2; shift 2
 P=${PATCH:-$D/patch.diff}
 W=/tmp/seedwt_$$
